@@ -216,7 +216,7 @@ Proof.
   - exfalso. apply (tr_lookup_none _ _ _ E). apply nth_In. lia.
 Qed.
 Lemma traces_ref_some s k t : traces_ref s k = Some t -> 0 <= t < Z.of_nat (length s) /\ nth (Z.to_nat t) s (0, 0) = k.
-Proof. unfold traces_ref. intros E. apply tr_lookup_some in E. replace (t - 0) with t in E by lia. lia || (split; [lia|tauto]). Qed.
+Proof. unfold traces_ref. intros E. apply tr_lookup_some in E. replace (t - 0) with t in E by lia. split; [lia|tauto]. Qed.
 Lemma traces_ref_none s k : traces_ref s k = None -> ~ In k s.
 Proof. apply tr_lookup_none. Qed.
 
@@ -889,7 +889,7 @@ Lemma d27_witness :
   detect_route d27_survey_2d = R2D.
 Proof. vm_compute. repeat split; reflexivity. Qed.
 
-(* ================================================================ get_tracefield_values of a constant field (D29) *)
+(* ================================================================ get_tracefield_values of a constant field (D30) *)
 Lemma tracefield_constant G s bs0 g F v a b :
   survey_ok G s = true -> no_zero_inline s = true -> 1 <= bs0 -> infer_geometry s = Return g ->
   footer s g bs0 (fun t => fst (tr s t)) = Return F -> 0 <= a < gn_il G -> 0 <= b < gn_xl G ->
